@@ -64,6 +64,22 @@ def parse_harness(line):
 
 
 def run_unit(path, tier="quick", overlay=None, tag=""):
+    """One generated harness crate (and cargo target directory) per unit and tag: concurrent invocations of ./check (two
+    properties served by the same Kani unit, run in parallel) must not write the same crate at the same time, so the whole
+    run of a unit holds an exclusive file lock.  Waiting for the lock is not counted in any harness timeout."""
+    import fcntl
+    unit = os.path.basename(path).rsplit(".", 1)[0]
+    os.makedirs(os.path.join(OUT, "kani"), exist_ok=True)
+    lockpath = os.path.join(OUT, "kani", unit + (("__" + tag) if tag else "") + ".lock")
+    with open(lockpath, "w") as lf:
+        fcntl.flock(lf, fcntl.LOCK_EX)
+        try:
+            return _run_unit_locked(path, tier, overlay, tag)
+        finally:
+            fcntl.flock(lf, fcntl.LOCK_UN)
+
+
+def _run_unit_locked(path, tier="quick", overlay=None, tag=""):
     t0 = time.time()
     unit = os.path.basename(path).rsplit(".", 1)[0]
     res = KaniResult(unit)
